@@ -9,6 +9,19 @@ import vlib
 from vlib import Evidence, MachineryError, log
 
 
+def _noreturn_info(trace_path, cid):
+    try:
+        with open(trace_path) as f:
+            for ln in f:
+                if ln.startswith('{"e":"NoReturn"'):
+                    r = json.loads(ln)
+                    if cid is None or r.get("case") == cid:
+                        return r
+    except (OSError, ValueError):
+        pass
+    return None
+
+
 class Check:
     """One property check run.  Subclass-free: a plan is a dict, see checks_*.py."""
 
@@ -88,11 +101,48 @@ class Check:
             pass
         by_id = {c["id"]: c for c in cases}
         seen = set()
+        # a call that did not return: name the reason; a timeout is only reported if it repeats when
+        # the case is run alone (a loaded machine must not raise an alarm), a sanitizer report or a
+        # crash is reported as is
+        fixed = []
+        for tp, conj, line, cid in failures:
+            if conj.startswith("NoReturn") or conj.startswith("Rejected"):
+                info = _noreturn_info(tp, cid)
+                if info is not None:
+                    conj = "NoReturn(%s,%s,after %s steps)" % (info.get("why"), info.get("detail"), info.get("steps_done"))
+                    if info.get("why") == "timeout" and cid in by_id:
+                        if not self._timeout_repeats(exe, by_id[cid], timeout_ms, env):
+                            self.ev.cov["unconfirmed_timeouts"] = self.ev.cov.get("unconfirmed_timeouts", 0) + 1
+                            log("[trace] timeout of case %s did not repeat when run alone: not reported" % cid)
+                            continue
+            if conj.startswith("NoReturn"):
+                # keep what the harness printed (sanitizer reports, terminate messages)
+                try:
+                    os.makedirs(self.outdir, exist_ok=True)
+                    shutil.copy(tp.split(".seg")[0] + ".stderr", os.path.join(self.outdir, "stderr-%s.txt" % str(cid).replace("/", "_")))
+                except OSError:
+                    pass
+            fixed.append((tp, conj, line, cid))
+        failures = fixed
         for tp, conj, line, cid in failures:
             if (cid, conj) in seen:
                 continue
             seen.add((cid, conj))
             self.report(conjunct=conj, case_id=cid, case=by_id.get(cid), trace=tp, line=line)
+
+    def _timeout_repeats(self, exe, case, timeout_ms, env):
+        import subprocess
+        cp = os.path.join(self.workdir, "retry-case.ndjson")
+        tp = os.path.join(self.workdir, "retry-trace.ndjson")
+        for attempt in range(2):
+            vlib.write_cases([case], cp)
+            e = dict(os.environ)
+            if env:
+                e.update(env)
+            subprocess.run([exe, "--cases", cp, "--out", tp, "--timeout", str(3 * timeout_ms)], capture_output=True, env=e)
+            if '"e":"NoReturn"' not in open(tp).read():
+                return False
+        return True
 
     # ---- verdicts ---------------------------------------------------------------------------
     def report(self, conjunct, case_id, case=None, replay=None, trace=None, line=None):
